@@ -37,6 +37,7 @@ OPTIONS = {
     'sympy-symbols': dict(symbolcls='sympy'),
     'wrapper=identity': dict(wrapper='identity'),
     'wrapper=wraps': dict(wrapper='wraps'),
+    'wrapper=closure': dict(wrapper='closure'),
     'pretty_blade': dict(pretty_blade='x'),
     'cse=False+sympy': dict(cse=False, symbolcls='sympy'),
     'graded+cse=False': dict(graded=True, cse=False),
@@ -138,9 +139,29 @@ def _complete_grades(alg, keys):
 def run_case(desc, V):
     base_cfg = desc['base']
     opt_cfg = dict(base_cfg, **OPTIONS[desc['opt']])
-    fresh = 'wrapper' in opt_cfg
     A0 = get_alg(base_cfg)
-    A1 = get_alg(opt_cfg, fresh=fresh)
+    if 'wrapper' not in opt_cfg:
+        return _body(desc, V, A0, get_alg(opt_cfg))
+    # with a wrapper the numeric path resolves functions by name: fresh algebra, a few other operators
+    # generated in between, then a second pass
+    A1 = make_alg(opt_cfg)
+    claims = list(_body(desc, V, A0, A1))
+    d = A1.d
+    if d:
+        u = A1.multivector(keys=(0, 1), values=[2, 3])
+        w = A1.multivector(keys=(1, 2 ** d - 1), values=[5, 7])
+        (u * w) + (w ^ u) - (u | w)
+        ~u
+    for c in _body(desc, V, A0, A1):
+        if isinstance(c, (Eq, Fail)):
+            c.label = 'recall:' + c.label
+            c.fkey = 'recall|' + (c.fkey or c.label)
+        claims.append(c)
+    return claims
+
+
+def _body(desc, V, A0, A1):
+    opt_cfg = dict(desc['base'], **OPTIONS[desc['opt']])
     graded = bool(opt_cfg.get('graded'))
     oname = 'graded' if graded else desc['opt']
     claims = []
